@@ -139,6 +139,14 @@ def search(run, info):
                 parts.insert(pos, ftext)
                 meta.append((code, what, [("all.st", "\n".join(parts))], "one-file"))
                 cases.append({"id": len(cases), "op": "project", "files": [["all.st", hexs("\n".join(parts))]]})
+            # ... and with a vendor's description block (the preprocessor blanks what stands between its markers) in front of every
+            # valid declaration: what stands between two such blocks is as much part of the file as anything else
+            hdr = lambda k: "(*@KEY@:DESCRIPTION*)\n(* version 1.%d, vendor text *)\n(*@KEY@:END_DESCRIPTION*)\n" % k
+            for pos in (0, 1, len(comps)):
+                parts = [hdr(k) + c for k, c in enumerate(comps)]
+                parts.insert(pos, ftext)
+                meta.append((code, what + " (valid declarations with description blocks around it)", [("all.st", "\n".join(parts))], "one-file-description-blocks"))
+                cases.append({"id": len(cases), "op": "project", "files": [["all.st", hexs("\n".join(parts))]]})
     # companions that reuse the faulty declaration's name in the other name space (a TYPE named like a faulty POU, a
     # FUNCTION_BLOCK named like a faulty TYPE): the fault must still be reported (or the clash diagnosed)
     for _ in range(40 if run.tier == "quick" else 400):
